@@ -41,6 +41,8 @@ enum {
   C_REALLOC,       /* a = slot, b = new size */
   C_FREE_RANGE_WAIT, /* a = first slot, b = count: C_FREE_WAIT for each slot in order */
   C_DUMP,
+  C_SUBPROC_JOIN,  /* a = index: the thread joins harness sub-process a (created on first use) */
+  C_MALLOC_AL_AT,  /* a = size, b = slot, c = alignment: mi_malloc_aligned_at(size, alignment, 8): an over-allocated block returned as interior pointer */
   C_SIGNAL,        /* a = flag index: raise a harness flag */
   C_WAIT_FLAG,     /* a = flag index: wait (yielding) until it is raised */
   C_WAIT_LIVE,     /* a = slot: wait until some thread has allocated into it */
@@ -76,6 +78,7 @@ static int     g_race = 0;                  /* race pass: threads run freely und
 static mi_heap_t* g_hs[4];
 static long    g_pages_mark[8];
 static int     g_flags[8];
+static mi_subproc_id_t g_sp[4];
 static uint64_t g_out[VF_MAX_THREADS];      /* per-thread observation hash */
 static const cprog_t* g_prog;
 static mi_arena_id_t g_arena_id;
@@ -172,11 +175,13 @@ static int exec_ops(const cop_t* ops, int tid, int explored) {
       case C_WAIT_LIVE: { long spins = 0; while (!LIVE(o->a)) { vf_yield(); if (++spins > SPIN_MAX) { SVIOL("livelock", "thread %d waits forever for slot %ld", tid, o->a); return -1; } } break; }
       case C_SIGNAL: __atomic_store_n(&g_flags[o->a], 1, __ATOMIC_RELEASE); break;
       case C_WAIT_FLAG: { long spins = 0; while (!__atomic_load_n(&g_flags[o->a], __ATOMIC_ACQUIRE)) { vf_yield(); if (++spins > SPIN_MAX) { SVIOL("livelock", "thread %d waits forever for flag %ld", tid, o->a); return -1; } } break; }
+      case C_MALLOC_AL_AT: { void* p = mi_malloc_aligned_at((size_t)o->a, (size_t)o->c, 8); if (p != NULL && (((uintptr_t)p + 8) % (size_t)o->c) != 0) { SVIOL("misaligned", "thread %d: mi_malloc_aligned_at(%ld,%ld,8) = %p", tid, o->a, o->c, p); return -1; } if (model_add((int)o->b, p, (size_t)o->a, tid, "mi_malloc_aligned_at")) return -1; break; }
       case C_DUMP: { mi_heap_t* h = mi_heap_get_default(); fprintf(stderr, "[t%d] pages=%zu", tid, h->page_count); for (int b = 0; b <= MI_BIN_FULL; b++) for (mi_page_t* pg = h->pages[b].first; pg; pg = pg->next) fprintf(stderr, " [bin%d bs=%zu used=%d fl=%d]", b, mi_page_block_size(pg), pg->used, (int)mi_page_thread_free_flag(pg)); fprintf(stderr, "\n"); break; }
       case C_PAGES_LE: { long now = (long)mi_heap_get_backing()->page_count; VF_INC(checks); if (now > g_pages_mark[o->a]) { SVIOL("freed-blocks-not-reused", "thread %d: %ld blocks were freed by another thread and the same number allocated again, but the heap grew from %ld to %ld pages: the remotely freed blocks were not reusable by the owner", tid, o->b, g_pages_mark[o->a], now); return -1; } break; }
       case C_WAIT_FREED: case C_WAIT_FREE_DONE: { long spins = 0; for (;;) { int pending = 0; for (long i = 0; i < o->b; i++) if (LIVE(o->a + i) || g_slots[o->a + i].p == NULL || (o->code == C_WAIT_FREE_DONE && !FREE_RET(o->a + i))) pending = 1; if (!pending) break; vf_yield(); if (++spins > SPIN_MAX) { SVIOL("livelock", "thread %d waits forever for slots %ld..", tid, o->a); return -1; } } break; }
       case C_TICK: vf_os.clock_ms += o->a; break;
       case C_SUBPROC: { mi_subproc_id_t sp = mi_subproc_new(); mi_subproc_add_current_thread(sp); break; }
+      case C_SUBPROC_JOIN: { if (g_sp[o->a] == NULL) g_sp[o->a] = mi_subproc_new(); mi_subproc_add_current_thread(g_sp[o->a]); break; }   /* several threads share sub-process number a */
       case C_ARENA_ALLOC: {
         mi_memid_t memid; size_t size = (size_t)o->a * MI_ARENA_BLOCK_SIZE;
         void* p = _mi_arena_alloc_aligned(size, MI_ARENA_BLOCK_SIZE, 0, true, false, g_arena_id, &memid);
@@ -380,6 +385,12 @@ static const cprog_t progs[] = {
   { .name = "AB2", .nthreads = 3, .quiescence = 0, .sparse = 1,
     .setup = { { { C_END } }, { { C_INIT } }, { { C_FILL, 4 * MiB, 0, 7 }, { C_FILL, 1 * MiB, 10, 3 }, { C_MALLOC, S8, 15 }, { C_FREE, 11 }, { C_THREAD_DONE } } },
     .run   = { { { C_TICK, 1000 }, { C_MALLOC, 4 * MiB, 20 } }, { { C_FREE, 15 }, { C_MALLOC, 1 * MiB, 21 } }, { { C_END } } } },
+  /* R3: like R1 without adoption, but the page that goes to the full queue also holds a live over-allocated aligned block (interior
+     pointer): the remote frees into it must make it usable again all the same */
+  { .name = "R3", .nthreads = 2, .quiescence = 0,
+    .setup = { { { C_INIT } }, { { C_INIT } } },
+    .run   = { { { C_MALLOC_AL_AT, 4000, 0, 4096 }, { C_FILL, S8, 1, 7 }, { C_FILL, S8, 10, 8 }, { C_PAGES_MARK, 0 }, { C_WAIT_FREE_DONE, 1, 3 }, { C_GENERIC99 }, { C_FILL, S8, 20, 3 }, { C_PAGES_LE, 0, 3 } },
+               { { C_WAIT_LIVE, 17 }, { C_FREE_RANGE_WAIT, 1, 3 } } } },
   /* E1: thread exit racing a remote free of one of its blocks and an allocation that reclaims */
   { .name = "E1", .leakcheck = 1, .nthreads = 3, .quiescence = 0,
     .setup = { { { C_INIT } }, { { C_MALLOC, S8, 0 }, { C_MALLOC, S8, 1 } }, { { C_INIT } } },
@@ -395,6 +406,20 @@ static const cprog_t progs[] = {
   { .name = "E3", .leakcheck = 1, .nthreads = 2, .quiescence = 0,
     .setup = { { { C_FILL, 1 * MiB, 0, 34 }, { C_FILL, S8, 40, 9 } }, { { C_INIT } } },
     .run   = { { { C_COLLECT_REDUCE, 64 * MiB }, { C_MALLOC, S8, 60 } }, { { C_FREE, 40 }, { C_FREE, 0 }, { C_FREE, 41 } } } },
+  /* E3b: as E3, and both threads allocate from that size class afterwards: a page that the forced abandonment left linked in the old
+     owner's queue while the other thread adopts it would be handed out by both */
+  { .name = "E3b", .leakcheck = 1, .nthreads = 2, .quiescence = 0,
+    .setup = { { { C_FILL, 1 * MiB, 0, 34 }, { C_FILL, S8, 40, 9 } }, { { C_INIT } } },
+    .run   = { { { C_WAIT_FREE_DONE, 40, 1 }, { C_COLLECT_REDUCE, 64 * MiB }, { C_MALLOC, S8, 60 }, { C_MALLOC, S8, 61 }, { C_MALLOC, S8, 62 } }, { { C_FREE_WAIT, 40 }, { C_FREE, 41 }, { C_MALLOC, S8, 70 }, { C_MALLOC, S8, 71 }, { C_MALLOC, S8, 72 } } } },
+  /* E3c (run with MIMALLOC_TARGET_SEGMENTS_PER_THREAD=2 and reclaim-on-free): thread 0 is at its segment target; a page of it sits in
+     the full queue with a cross-thread free pending in the heap's delayed list (processed only every 100th generic call) and its
+     size queue is empty. An allocation that needs a fresh segment force-abandons the segment of that page (processing the pending
+     free, which moves the page between queues, on the way); thread 1 adopts the segment by freeing into it; then both allocate
+     from that size class */
+  { .name = "E3c", .leakcheck = 1, .nthreads = 2, .quiescence = 0,
+    .setup = { { { C_MALLOC, 20 * MiB, 30 }, { C_FILL, S8, 40, 9 }, { C_FREE, 48 }, { C_COLLECT, 0 }, { C_FILL, 12 * MiB, 50, 2 } }, { { C_INIT } } },
+    .run   = { { { C_WAIT_FREE_DONE, 40, 2 }, { C_MALLOC, 12 * MiB, 60 }, { C_SIGNAL, 0 }, { C_MALLOC, S8, 61 }, { C_MALLOC, S8, 62 } },
+               { { C_FREE_WAIT, 40 }, { C_FREE_WAIT, 41 }, { C_WAIT_FLAG, 0 }, { C_FREE, 42 }, { C_MALLOC, S8, 70 }, { C_MALLOC, S8, 71 } } } },
   /* E5: two remote frees into one abandoned segment (with reclaim-on-free both try to adopt it), then both allocate */
   { .name = "E5", .leakcheck = 1, .nthreads = 3, .quiescence = 0,
     .setup = { { { C_INIT } }, { { C_INIT } }, { { C_MALLOC, 1024, 0 }, { C_MALLOC, 1024, 1 }, { C_MALLOC, 1024, 2 }, { C_THREAD_DONE } } },
@@ -406,6 +431,12 @@ static const cprog_t progs[] = {
   { .name = "E6", .leakcheck = 1, .nthreads = 4, .quiescence = 0,
     .setup = { { { C_INIT } }, { { C_MALLOC, S8, 2 } }, { { C_MALLOC, S8, 0 }, { C_THREAD_DONE } }, { { C_MALLOC, S8, 1 }, { C_THREAD_DONE } } },
     .run   = { { { C_FREE, 1 }, { C_WAIT_FLAG, 0 }, { C_FREE, 0 }, { C_FREE, 2 } }, { { C_THREAD_DONE }, { C_SIGNAL, 0 } }, { { C_END } }, { { C_END } } } },
+  /* E7: two sub-processes with one abandoned arena segment each: a thread of the second one collects (its scan passes over the segment
+     of the main sub-process), the last block of the second sub-process' abandoned segment is then freed by a thread that cannot adopt
+     it, and a forced collect of the second sub-process has to find and release that segment */
+  { .name = "E7", .leakcheck = 1, .nthreads = 4, .quiescence = 0,
+    .setup = { { { C_INIT } }, { { C_SUBPROC_JOIN, 0 }, { C_INIT } }, { { C_MALLOC, S8, 0 }, { C_THREAD_DONE } }, { { C_SUBPROC_JOIN, 0 }, { C_MALLOC, S8, 1 }, { C_THREAD_DONE } } },
+    .run   = { { { C_WAIT_FLAG, 1 }, { C_FREE, 1 }, { C_SIGNAL, 0 }, { C_FREE, 0 } }, { { C_COLLECT, 0 }, { C_SIGNAL, 1 }, { C_WAIT_FLAG, 0 }, { C_COLLECT, 1 } }, { { C_END } }, { { C_END } } } },
   /* E4: sub-processes: a thread of another sub-process allocates while a segment of the main one is abandoned */
   { .name = "E4", .leakcheck = 1, .nthreads = 3, .quiescence = 0,
     .setup = { { { C_INIT } }, { { C_MALLOC, S8, 0 }, { C_MALLOC, S8, 1 } }, { { C_SUBPROC }, { C_INIT } } },
